@@ -9,6 +9,21 @@ CHECKS = {
           "Every execution of the real sender/receiver/dispatcher code for all scripts of the grid (sizes around chunk/buffer/max_data_size, send/try_send/chunked/abandoned/cancelled at every poll index, differing cfg pairs) on the default schedule, and for the core scripts under every schedule with <= 2 (quick) / 3 (thorough) deviations (task switches and budget preemptions); the receiver's log must equal the list of completed sends.",
           "Trusted: rustc, Tokio current-thread scheduler/paused clock/coop budget, the harness scheduler adapter (hook H1) and transport. select! fairness RNG fixed per seed, preemption points per poll capped (see evidence), memory-order effects not modelled.",
           "DESIGN.md 4/C01"),
+  "C02": ("model_checking",
+          "independent wire-ledger invariant evaluated at every prefix of every explored wire trace (deviation-bounded schedule exploration + script grids of real chmux executions)",
+          "The ledger (written from spec/chmux_v3.md, no code shared with remoc) checks at every wire event: cost put on wire - credit delivered <= advertised receive buffer; payload <= advertised chunk size; 4*ports <= chunk size; credit granted <= cost delivered. Hosts: dedicated traffic mixes with held-back credit frames (d<=1/2) and all C01/C03 grids and cores (d<=2/3).",
+          "Trusted: harness transport/ledger/spec transcription; credit counted as granted at delivery (tightest sound reading). Same scheduler assumptions as C01.",
+          "DESIGN.md 4/C02"),
+  "C03": ("model_checking",
+          "deviation-bounded schedule exploration + exhaustive cancel-point/queue-state/residue grids on real chmux code; quiescence + ledger-derived credit-conservation probe oracle",
+          "(a) scripts with sends/try_sends/connects cancelled at every poll index while the path to the wire is blocked, receiver-side cancelled recv with a full return queue: at quiescence nothing may be pending and send(P) for the ledger-derived pool P must complete with the reverse direction held; (b) connect(k ports) for receive buffers 4..=17 x residues 0..7 x chunk sizes: no step-horizon ending, no empty PortData, <= k frames; (c) a stalled port never blocks other/new ports.",
+          "Liveness judged at quiescence of a healthy transport under the paused clock; step horizon 3000/20000 classifies livelock. Same scheduler assumptions as C01.",
+          "DESIGN.md 4/C03"),
+  "C07": ("model_checking",
+          "exhaustive drop-order permutation enumeration x deviation-bounded schedule exploration of real endpoints; wire-ledger port life-cycle invariants; state-equality argument for repetition",
+          "All 8! orders of dropping the two port halves, client and listener on both endpoints (quick: every 7th), strided samples of the 10! orders with a pending connect and a held (or half-accepted) request, two-port orders, at d=0; selected orders and open/transfer/close cycles at d<=1/2. Oracle: both dispatchers return Ok with the link still open, no port number re-used while active, max_ports respected, exactly max_ports numbers free afterwards, no remoc task left, state after k cycles equals the initial state.",
+          "Unbounded repetition is argued by state equality after 0..2 cycles, not by infinite runs. Hook H2 makes port numbers re-used immediately.",
+          "DESIGN.md 4/C07"),
 }
 
 NOT_YET = "check not built yet in this session (design in DESIGN.md section 4); not claimed"
